@@ -45,13 +45,33 @@ class Theorem:
     modular: List[str] = field(default_factory=list)        # callees replaced by their contracts
     native_ok: List[str] = field(default_factory=list)
     note: str = ""
+    uses: List[Any] = field(default_factory=list)   # [(theorem name, {param: expr})]: proved theorems used as lemmas
 
 
 def fn_contract(name, props, fn, params, cases, args=None, **kw):
     """Contract on one real function: body is the call itself."""
-    a = args if args is not None else ", ".join(params.keys())
-    return Theorem(name=name, props=props, params=params, body=f"{fn}({a})", cases=cases,
-                   fuc=[fn] + kw.pop("fuc", []), **kw)
+    a = args if args is not None else ", ".join(f"{k}={k}" for k in params.keys())
+    opts = kw.pop("options", {})
+    opts.setdefault("contract_of", fn)
+    if "returns" in kw:
+        opts["returns"] = kw.pop("returns")
+    t = Theorem(name=name, props=props, params=params, body=f"{fn}({a})", cases=cases,
+                fuc=[fn] + kw.pop("fuc", []), options=opts, **kw)
+    loops = dict(t.loops)
+    LOOPS.update(loops)
+    return t
+
+
+LOOPS: Dict[Tuple[str, int], Loop] = {}
+
+
+def forall(f, lo, hi):
+    """forall i in [lo, hi): f(i).  Natively a bounded all(); symbolically a quantified formula."""
+    return all(f(i) for i in range(lo, hi))
+
+
+def implies(a, b):
+    return (not a) or b
 
 
 REGISTRY: List[Theorem] = []
